@@ -103,11 +103,45 @@ def send_sources(st):
             yield from sources_of(it["s"])
 
 
-def grants(inp):
-    """(account, asset) -> None (unbounded) | largest overdraft the text attaches to it"""
+class _Outside(Exception):
+    pass
+
+
+def dest_accounts(d, acct_of):
+    """the accounts a destination tree can send to; None when one of them cannot be evaluated from the input"""
+    out = set()
+
+    def kd(k):
+        if k["k"] == "to":
+            walk(k["d"])
+
+    def walk(d):
+        if d["k"] == "acct":
+            a = acct_of(d["e"])
+            if a is None:
+                raise _Outside()
+            out.add(a)
+        elif d["k"] == "inorder":
+            for c in d["caps"]:
+                kd(c["kd"])
+            kd(d["rest"])
+        else:
+            for i in d["items"]:
+                kd(i["kd"])
+    try:
+        walk(d)
+    except (_Outside, KeyError, TypeError):
+        return None
+    return out
+
+
+def send_table(inp):
+    """one entry per send statement, in script order: the asset its amount names, the overdraft each of ITS source occurrences is
+    granted — {(account, asset): None (unbounded / @world) | largest bound} —, its source accounts and the accounts its destination
+    can reach (None = not all of them can be evaluated from the input).  Python evaluation of the text, no Lean model."""
     env, bal, acct_of, asset_of = resolve_env(inp)
-    g = {}
-    for st in inp["ast"]["stmts"]:
+    table = []
+    for pos, st in enumerate(inp["ast"]["stmts"]):
         if st["k"] != "send":
             continue
         amt = st["amt"]
@@ -119,8 +153,13 @@ def grants(inp):
                 e = e["l"]
             m = eval_mon(e, env, asset_of)
             sasset = m[0] if m else None
+        g, srcs, unknown = {}, set(), False
         for s in send_sources(st):
             a = acct_of(s["e"])
+            if a is None:
+                unknown = True
+            else:
+                srcs.add(a)
             od = s.get("od")
             if s["e"]["k"] == "acct" and s["e"]["v"] == "world":
                 key, val = (a, sasset), None
@@ -131,8 +170,26 @@ def grants(inp):
             else:
                 m = eval_mon(od["e"], env, asset_of)
                 if not m:
+                    unknown = True     # a bound that cannot be evaluated: this send grants an unknown amount
                     continue
                 key, val = (a, m[0]), m[1]
+            if key in g and (g[key] is None or val is None):
+                g[key] = None
+            elif key in g:
+                g[key] = max(g[key], val)
+            else:
+                g[key] = val
+        table.append({"stmt": pos, "asset": sasset, "grants": g, "srcs": None if unknown else srcs, "unknown_grant": unknown,
+                      "dsts": dest_accounts(st["dst"], acct_of)})
+    return table, bal
+
+
+def grants(inp):
+    """(account, asset) -> None (unbounded) | largest overdraft the text attaches to it ANYWHERE in the script"""
+    table, bal = send_table(inp)
+    g = {}
+    for t in table:
+        for key, val in t["grants"].items():
             if key in g and (g[key] is None or val is None):
                 g[key] = None
             elif key in g:
@@ -142,11 +199,43 @@ def grants(inp):
     return g, bal
 
 
-def floor_violations(inp, out):
-    """C01: replay the postings in order against the balances the script was run against"""
+def attribute(table, postings):
+    """for each posting, the sends (indices into `table`) it can come from, given that a send only moves its own asset (or the asset
+    of one of its overdraft clauses) from its own sources to its own destinations, and that the postings of the statements come in
+    the order of the statements.  None when the postings have no such reading."""
+    feas = []
+    for src, dst, _, asset in postings:
+        feas.append([k for k, t in enumerate(table)
+                     if (t["srcs"] is None or src in t["srcs"]) and (t["dsts"] is None or dst in t["dsts"])
+                     and (t["asset"] is None or asset == t["asset"] or any(asset == ga for _, ga in t["grants"]))])
+    lo, cur = [], 0
+    for c in feas:
+        c = [k for k in c if k >= cur]
+        if not c:
+            return None
+        cur = min(c)
+        lo.append(cur)
+    hi, cur = [0] * len(feas), len(table) - 1
+    for n in range(len(feas) - 1, -1, -1):
+        c = [k for k in feas[n] if k <= cur]
+        if not c:
+            return None
+        cur = max(c)
+        hi[n] = cur
+    return [[k for k in feas[n] if lo[n] <= k <= hi[n]] for n in range(len(feas))]
+
+
+def floor_violations(inp, out, stats=None):
+    """C01: replay ALL postings of the script, in order, on the balances it was run against (Python integers: no bound on the
+    magnitudes).  A posting that takes from a non-world account must leave it at or above -(the overdraft granted to that account by
+    the SEND the posting belongs to): a bound granted by one statement — or `allowing unbounded overdraft` in one statement — does not
+    license what another statement takes.  Which statement a posting belongs to is read off the output alone (`attribute`); where
+    several statements are possible the most generous of them counts, where none can be found the most generous of the whole text."""
     if "postings" not in out:
         return []
-    g, bal = grants(inp)
+    table, bal = send_table(inp)
+    g, _ = grants(inp)
+    owners = attribute(table, out["postings"])
     R = dict(bal)
     v = []
     for n, (src, dst, amt, asset) in enumerate(out["postings"]):
@@ -154,10 +243,21 @@ def floor_violations(inp, out):
         if amt < 0:
             v.append(("negative-posting", "posting %d has a negative amount %d" % (n, amt)))
         if src != "world":
-            gr = g.get((src, asset), 0)
+            gr, by = g.get((src, asset), 0), "the script"
+            if owners is not None and owners[n] and not any(table[k]["unknown_grant"] for k in owners[n]):
+                grs = [table[k]["grants"].get((src, asset), 0) for k in owners[n]]
+                gr = None if any(x is None for x in grs) else max(grs)
+                by = "its statement (no. %s)" % "/".join(str(table[k]["stmt"] + 1) for k in owners[n])
             after = R.get((src, asset), 0) - amt
+            if stats is not None and amt > 0:
+                stats["postings_from_a_non_world_account"] += 1
+                stats["judged_against_the_grant_of_their_own_statement"] += 1 if by != "the script" else 0
+                stats["of_which_in_a_script_of_several_sends"] += 1 if by != "the script" and len(table) > 1 else 0
+                stats["of_which_the_statement_is_not_unique"] += 1 if by != "the script" and len(owners[n]) > 1 else 0
+                stats["bounded_here_although_unbounded_elsewhere_in_the_script"] += 1 if gr is not None and g.get((src, asset), 0) is None else 0
+                stats["balance_or_amount_beyond_64_bits"] += 1 if max(abs(after), abs(after + amt), amt) >= 2 ** 63 else 0
             if gr is not None and amt > 0 and after < -gr:
-                v.append(("floor", "posting %d takes %d %s from %s leaving %d, below -(granted overdraft %d)" % (n, amt, asset, src, after, gr)))
+                v.append(("floor", "posting %d takes %d %s from %s leaving %d, below -(overdraft %d granted by %s)" % (n, amt, asset, src, after, gr, by)))
         R[(src, asset)] = R.get((src, asset), 0) - amt
         R[(dst, asset)] = R.get((dst, asset), 0) + amt
     return v
@@ -201,6 +301,46 @@ def distribution(inputs, impl):
         for f in features(i):
             feats[f] += 1
     return {"outcomes": dict(cls), "constructs": dict(feats)}
+
+
+def sendall_bottomless(inp):
+    """"unbounded" / "world" when the script has a `send [A *]` whose source is, or whose ordered source list ends with, an account
+    `allowing unbounded overdraft` / @world (the language refuses such a text); else None"""
+    def last(s):
+        while s["k"] == "inorder" and s["ss"]:
+            s = s["ss"][-1]
+        return s
+    for st in inp["ast"]["stmts"]:
+        if st["k"] == "send" and st["amt"]["k"] == "all" and st["src"]["k"] == "src":
+            s = last(st["src"]["s"])
+            if s["k"] == "acct":
+                if s["e"]["k"] == "acct" and s["e"]["v"] == "world":
+                    return "world"
+                if (s.get("od") or {}).get("k") == "unbounded":
+                    return "unbounded"
+    return None
+
+
+def focus_stats(inputs, impl):
+    """how often each focused shape of harness/numscript_focus.go occurred in this run, by variant and by outcome, and how many
+    texts of the whole stream ask for `send [A *]` from a bottomless source (and what the real compiler answered)"""
+    shape, variant, outcome, bottomless = collections.Counter(), collections.Counter(), {}, collections.Counter()
+    for i in inputs:
+        o = impl.get(i["id"]) or {}
+        res = o.get("err") or ("panic" if "panic" in o else "ok")
+        b = sendall_bottomless(i)
+        if b:
+            bottomless["send_all_from_%s" % b] += 1
+            bottomless["send_all_from_%s:%s" % (b, "refused_by_the_compiler" if res == "compile_error" else "NOT_refused:" + res)] += 1
+        if not i.get("focus"):
+            continue
+        shape[i["shape"]] += 1
+        variant[i["focus"]] += 1
+        outcome.setdefault(i["shape"], collections.Counter())[res] += 1
+    return {"programs": len(inputs), "focused": sum(shape.values()), "by_shape": dict(shape), "by_variant": dict(sorted(variant.items())),
+            "outcomes_by_shape": {k: dict(v) for k, v in outcome.items()}, "send_all_from_a_bottomless_source": dict(bottomless),
+            "rule": "an additional case in front of about 7 % of the generated programs, drawn from a stream of its own (the other programs of the seed "
+                    "are what they were); `/control` variants are neighbours that must behave ordinarily"}
 
 
 def rebind_stats(inputs, impl):
@@ -308,29 +448,47 @@ def compare_bytecode(ctx, inputs, impl, model):
                            "opcodes_never_emitted": [o for o in OPNAMES[1:] if o not in ops]}
 
 
-# ---- C03, ordering clause: "in an ordered list of sources a later one contributes only when the earlier ones have
-# given all they can", evaluated on the postings alone for the fragment where it is easy to state without the Lean Spec
+# ---- C03, ordering clause: "in an ordered list of sources a later one contributes only when the earlier ones have given all they can"
+# (and, with it: what an ordered destination keeps is taken from the END of the funding, so the postings drain the sources front to
+# back for what is actually sent; `send [A *]` moves exactly what its sources hold AT THAT POINT of the script), evaluated on the
+# postings alone, send by send, for the fragment where this can be stated without the Lean Spec
 
-class _Outside(Exception):
+class _Short(Exception):
     pass
 
 
-def ordered_expectation(inp):
-    """None when the script is outside the fragment; else dict(asset, amount, dest, leaves, repeated, expected) where
-    expected is None (the sources cannot cover the amount) or the list [(account, amount)] the leaves give, front to back.
+def merge_adjacent(pairs):
+    """drop the zero amounts, add up neighbours with the same key: [(key…, amount)]"""
+    out = []
+    for t in pairs:
+        k, g = tuple(t[:-1]), t[-1]
+        if g == 0:
+            continue
+        if out and out[-1][:-1] == k:
+            out[-1] = k + (out[-1][-1] + g,)
+        else:
+            out.append(k + (g,))
+    return out
 
-    Fragment: the only balance-touching statement is one `send [A n]` (n >= 0) with a plain account as destination and a
-    source that is an ordered list (possibly nested) of `@acct`, `@acct allowing overdraft up to [A k]` and `max [A m] from <such
-    a source>`, everything in asset A, no @world, no unbounded overdraft, no allotment.  A leaf can give balance + overdraft minus
-    what the same account already gave earlier in the list; a `max` caps what passes through it."""
-    stmts = inp["ast"]["stmts"]
-    sends = [s for s in stmts if s["k"] == "send"]
-    if len(sends) != 1 or any(s["k"] not in ("send", "print", "setTxMeta", "setAccountMeta") for s in stmts):
+
+def send_expectation(st, R, env, acct_of, asset_of):
+    """None when the send is outside the fragment; else what it must post when the balances are R (the stored balances with the
+    postings of the earlier statements of the script applied): dict(asset, all, amount, available, kept, leaves, repeated, bottomless,
+    expected) where expected is None (the sources cannot cover the amount, or the destination is told to keep more than it
+    receives: the send must fail) or the list [(source, destination, amount)] in order, neighbours merged, zero amounts dropped.
+
+    Fragment: `send [A n]` (n >= 0) or `send [A *]`; a source that is an account or an ordered list (possibly nested) of `@acct`,
+    `@acct allowing overdraft up to [A k]`, `max [A m] from <such a source>`, and — with a stated amount — `@world` /
+    `@acct allowing unbounded overdraft`; a destination that is an account or an ordered destination whose entries are
+    `max [A m] kept`, `max [A m] to <destination>`, `remaining kept`, `remaining to <destination>`, nested at will; everything in
+    asset A; no allotment.
+    Sources: a leaf can give balance + overdraft minus what the same account already gave earlier in the list (a bottomless one:
+    whatever is still asked for); a `max` caps what passes through it; the leaves are drained front to back.
+    Destinations: the entries are served front to back, each `max` entry taking at most its cap from what is left; what an entry
+    or a nested destination does not send comes back in front of what is left; all that is kept is finally taken from the END of
+    the funding — so the units actually sent are the FIRST ones of the funding, in the order of the entries."""
+    if st["src"]["k"] != "src":
         return None
-    st = sends[0]
-    if st["amt"]["k"] != "mon" or st["src"]["k"] != "src" or st["dst"]["k"] != "acct":
-        return None
-    env, bal, acct_of, asset_of = resolve_env(inp)
 
     def mon(e):
         try:
@@ -341,90 +499,197 @@ def ordered_expectation(inp):
             raise _Outside()
         return m
 
-    given, out, leaves = collections.Counter(), [], []
+    given, pieces, leaves, flags = collections.Counter(), [], [], set()
 
-    def give(s, limit, asset):
+    def give(s, limit, asset):          # limit None: no limit (send-all)
         if s["k"] == "acct":
             a = acct_of(s["e"])
-            if a is None or a == "world":
+            od = s.get("od")
+            world = s["e"]["k"] == "acct" and s["e"]["v"] == "world"
+            if a is None or (a == "world" and not world):
                 raise _Outside()
-            o, od = 0, s.get("od")
-            if od is not None:
-                if od["k"] != "upto":
-                    raise _Outside()
-                oa, o = mon(od["e"])
-                if oa != asset:
-                    raise _Outside()
             leaves.append(a)
-            g = min(max(0, bal.get((a, asset), 0) + o - given[a]), limit)
+            if world or (od is not None and od["k"] == "unbounded"):
+                if limit is None or (world and od is not None):
+                    raise _Outside()
+                flags.add("bottomless")
+                g = limit
+            else:
+                o = 0
+                if od is not None:
+                    if od["k"] != "upto":
+                        raise _Outside()
+                    oa, o = mon(od["e"])
+                    if oa != asset:
+                        raise _Outside()
+                g = max(0, R.get((a, asset), 0) + o - given[a])
+                if limit is not None:
+                    g = min(g, limit)
             if g > 0:
                 given[a] += g
-                out.append((a, g))
+                pieces.append((a, g))
             return g
         if s["k"] == "max":
             ca, c = mon(s["cap"])
             if ca != asset:
                 raise _Outside()
-            return give(s["s"], min(limit, c), asset)
+            return give(s["s"], c if limit is None else min(limit, c), asset)
         if s["k"] != "inorder":
             raise _Outside()
         tot = 0
         for x in s["ss"]:
-            tot += give(x, limit - tot, asset)
+            tot += give(x, None if limit is None else limit - tot, asset)
         return tot
+
+    def flow(d, amount, asset):
+        """(what is sent, in order: [(account, amount)], how much is handed back)"""
+        if d["k"] == "acct":
+            a = acct_of(d["e"])
+            if a is None:
+                raise _Outside()
+            return [(a, amount)], 0
+        if d["k"] != "inorder":
+            raise _Outside()
+        cur, kept, sent = amount, 0, []
+        for c in d["caps"]:
+            ca, m = mon(c["cap"])
+            if ca != asset:
+                raise _Outside()
+            t = min(m, cur)
+            if c["kd"]["k"] == "kept":
+                flags.add("max-kept")
+                kept += t                 # set aside by amount only; the funding stays as it is
+            else:
+                e, k = flow(c["kd"]["d"], t, asset)
+                sent += e
+                cur, kept = cur - t + k, kept + k
+        if kept > cur:
+            raise _Short()
+        if d["rest"]["k"] == "kept":
+            return sent, cur
+        e, k = flow(d["rest"]["d"], cur - kept, asset)
+        return sent + e, kept + k
     try:
-        asset, n = mon(st["amt"]["e"])
-        dest = acct_of(st["dst"]["e"])
-        if dest is None:
-            return None
-        tot = give(st["src"]["s"], n, asset)
-    except (_Outside, KeyError, TypeError):
+        if st["amt"]["k"] == "mon":
+            asset, n = mon(st["amt"]["e"])
+        else:
+            asset, n = asset_of(st["amt"]["asset"]), None
+            if asset is None:
+                return None
+        avail = give(st["src"]["s"], n, asset)
+        covered = n is None or avail == n
+        expected, kept = None, None
+        if covered:
+            try:
+                sent, kept = flow(st["dst"], avail, asset)
+                expected, i, left = [], 0, 0
+                for dest, amt in sent:      # the units sent are the first ones of the funding, entry after entry
+                    while amt > 0:
+                        if left == 0:
+                            a, left = pieces[i]
+                            i += 1
+                        t = min(left, amt)
+                        expected.append((a, dest, t))
+                        left, amt = left - t, amt - t
+                expected = merge_adjacent(expected)
+            except _Short:
+                expected = None
+    except (_Outside, KeyError, TypeError, IndexError):
         return None
     seen_at = {}
     for k, a in enumerate(leaves):
         seen_at.setdefault(a, []).append(k)
-    return {"asset": asset, "amount": n, "dest": dest, "leaves": len(leaves),
+    return {"asset": asset, "all": n is None, "amount": n, "available": avail, "kept": kept, "has_kept": has_kept(st["dst"]),
+            "ordered_dst": st["dst"]["k"] == "inorder",
+            "max_kept": "max-kept" in flags, "bottomless": "bottomless" in flags, "leaves": len(leaves), "parts": len(merge_adjacent(pieces)),
             "repeated": any(b - a > 1 for ps in seen_at.values() for a, b in zip(ps, ps[1:])),
-            "expected": merge_adjacent(out) if tot == n else None}
+            "expected": expected}
 
 
-def merge_adjacent(pairs):
-    out = []
-    for a, g in pairs:
-        if g == 0:
-            continue
-        if out and out[-1][0] == a:
-            out[-1] = (a, out[-1][1] + g)
-        else:
-            out.append((a, g))
-    return out
-
-
-def ordered_sources_verdict(inp, out, stats=None):
-    """None, or what is wrong with the order in which the postings of `out` drain the sources of `inp`"""
+def ordered_verdicts(inp, out, stats=None):
+    """[(signature keys, what)]: what is wrong with the way the postings of `out` drain the sources / serve the ordered destinations
+    of the sends of `inp`, statement by statement.  Scripts whose only balance-touching statements are sends (no `save`, no `fail`);
+    with several sends, every posting must be attributable to one statement from the output alone (`attribute`), and each send is
+    judged on the stored balances with the postings of the earlier statements applied."""
     if "postings" not in out:
-        return None
-    try:
-        ex = ordered_expectation(inp)
-    except Exception:
-        ex = None
-    if ex is None:
-        return None
-    got = merge_adjacent([(p[0], int(p[2])) for p in out["postings"]])
+        return []
+    stmts = inp["ast"]["stmts"]
+    sends = [s for s in stmts if s["k"] == "send"]
+    if not sends or any(s["k"] not in ("send", "print", "setTxMeta", "setAccountMeta") for s in stmts):
+        return []
+    postings = out["postings"]
+    env, bal, acct_of, asset_of = resolve_env(inp)
+    if len(sends) == 1:
+        owner = [0] * len(postings)
+    else:
+        table, _ = send_table(inp)
+        own = attribute(table, postings)
+        if own is None or any(len(o) != 1 for o in own):
+            if stats is not None:
+                stats["scripts_of_several_sends_whose_postings_cannot_be_attributed"] += 1
+            return []
+        owner = [o[0] for o in own]
+    R, v = dict(bal), []
+    for k, st in enumerate(sends):
+        mine = [p for p, o in zip(postings, owner) if o == k]
+        try:
+            ex = send_expectation(st, R, env, acct_of, asset_of)
+        except Exception:
+            ex = None
+        if ex is not None:
+            w = _send_verdict(ex, mine, k, len(sends), stats)
+            if w:
+                v.append(w)
+        for src, dst, amt, asset in mine:
+            R[(src, asset)] = R.get((src, asset), 0) - int(amt)
+            R[(dst, asset)] = R.get((dst, asset), 0) + int(amt)
+    return v
+
+
+def _send_verdict(ex, mine, k, nsends, stats):
+    got = merge_adjacent([(p[0], p[1], int(p[2])) for p in mine])
+    got_src = merge_adjacent([(p[0], int(p[2])) for p in mine])
+    moved = sum(t[-1] for t in got)
+    where = "" if nsends == 1 else "statement %d of %d (balances: the stored ones with the postings of the earlier statements applied): " % (k + 1, nsends)
     if stats is not None:
         stats["evaluated"] += 1
+        stats["in_a_script_of_several_sends_not_the_first"] += 1 if k > 0 else 0
         stats["with_an_account_at_two_non_adjacent_places"] += 1 if ex["repeated"] else 0
-        stats["several_sources_contribute"] += 1 if len(got) > 1 else 0
-    stray = [p for p in out["postings"] if int(p[2]) != 0 and (p[1] != ex["dest"] or p[3] != ex["asset"])]
+        stats["several_sources_contribute"] += 1 if len(got_src) > 1 else 0
+        stats["send_all"] += 1 if ex["all"] else 0
+        stats["send_all_after_an_earlier_send"] += 1 if ex["all"] and k > 0 else 0
+        stats["ends_with_world_or_an_unbounded_overdraft"] += 1 if ex["bottomless"] else 0
+        stats["ordered_destination"] += 1 if ex["ordered_dst"] else 0
+        stats["destination_keeps_something"] += 1 if ex["kept"] else 0
+        stats["max_kept_entry"] += 1 if ex["max_kept"] else 0
+        stats["max_kept_entry_keeps_from_a_funding_of_several_parts"] += 1 if ex["max_kept"] and ex["kept"] and ex["parts"] > 1 else 0
     want = ex["expected"]
+    sig = {"kept": True} if ex["has_kept"] else {}
     if want is None:
-        return "the ordered sources can give less than the %d %s asked for, yet the send went through: %s" % (ex["amount"], ex["asset"], got)
+        if ex["all"] or ex["available"] == ex["amount"]:
+            return (dict(sig, **{"class": "kept-amount"}), where + "the ordered destination is told to keep more than it receives (%d %s), yet the send went through: %s"
+                    % (ex["available"], ex["asset"], got))
+        return (dict(sig, **{"class": "ordered-sources"}), where + "the ordered sources can give less than the %d %s asked for, yet the send went through: %s"
+                % (ex["amount"], ex["asset"], got_src))
+    stray = [p for p in mine if int(p[2]) != 0 and p[3] != ex["asset"]]
     if stray:
-        return "a posting goes elsewhere than %s / %s: %s" % (ex["dest"], ex["asset"], stray[0])
+        return (dict(sig, **{"class": "ordered-sources"}), where + "a posting goes elsewhere than in %s: %s" % (ex["asset"], stray[0]))
+    want_src = merge_adjacent([(t[0], t[2]) for t in want])
+    should = sum(t[-1] for t in want)
+    if moved != should and ex["all"] and not ex["has_kept"]:
+        return ({"class": "send-all-not-exact"}, where + "`send [%s *]` must move everything its sources hold at that point, %d (%s); the postings move %d (%s)"
+                % (ex["asset"], should, want_src, moved, got_src))
+    if moved != should and ex["has_kept"]:
+        return (dict(sig, **{"class": "kept-amount"}), where + "of the %d %s that reach the destination the text keeps %d and sends %d; the postings send %d (%s)"
+                % (ex["available"], ex["asset"], ex["kept"], should, moved, got))
+    if got_src != want_src:
+        j = next((j for j in range(min(len(got_src), len(want_src))) if got_src[j] != want_src[j]), min(len(got_src), len(want_src)))
+        return (dict(sig, **{"class": "ordered-sources"}),
+                where + "sources are not drained in order: giving all they can front to back%s yields %s, the postings say %s (first difference at contribution %d)"
+                % (" for the %d actually sent (what is kept comes off the END of the funding)" % should if ex["has_kept"] else "", want_src, got_src, j))
     if got != want:
-        k = next((j for j in range(min(len(got), len(want))) if got[j] != want[j]), min(len(got), len(want)))
-        return ("sources are not drained in order: giving all they can front to back yields %s, the postings say %s (first difference at "
-                "contribution %d)" % (want, got, k))
+        return (dict(sig, **{"class": "ordered-destinations"}),
+                where + "the entries of the destination are not served front to back: expected %s, the postings say %s" % (want, got))
     return None
 
 
